@@ -55,6 +55,7 @@ def judge_shape(data: bytes, addr: int, consumers: bool, pre, op) -> List[Tuple[
     tag = f"op={op:02X}/{_cls(pre)}"
     res: List[Any] = []
     lens = list(range(len(data) + 1))
+    first = drv.info_fp_fresh(data, addr)      # asked of a new architecture object before anything shorter was seen at this address
     if not consumers:
         # reduced truncation set (quick tier, prefixes outside the consumer set): the full buffer,
         # the exact length, one byte less; every length when the full buffer is rejected.
@@ -65,7 +66,7 @@ def judge_shape(data: bytes, addr: int, consumers: bool, pre, op) -> List[Tuple[
         if full0 is not None and 1 <= full0[0] <= len(data):
             lens = sorted({full0[0] - 1, full0[0], len(data)})
     if lens != list(range(len(data) + 1)):
-        return _judge_reduced(data, addr, lens, tag)
+        return _judge_reduced(data, addr, lens, tag, first)
     for L in range(len(data) + 1):
         try:
             res.append(drv.info_fp(data[:L], addr))
@@ -73,6 +74,9 @@ def judge_shape(data: bytes, addr: int, consumers: bool, pre, op) -> List[Tuple[
             out.append((f"C01/info-raises/{type(exc).__name__}/{tag}",
                         f"get_instruction_info({data[:L].hex()}) raised {type(exc).__name__}: {exc}"))
             res.append("EXC")
+    if first != "EXC" and res[len(data)] != "EXC" and res[len(data)] != first:
+        out.append((f"C01/answer-depends-on-earlier-requests/{tag}", f"get_instruction_info({data.hex()}) @ {addr:#x}: a new architecture object says "
+                    f"{first}, the one that was asked for the shorter buffers {[data[:k].hex() for k in range(1, len(data))][:3]}.. first says {res[len(data)]}"))
     acc = [L for L, r in enumerate(res) if r not in (None, "EXC")]
     if acc:
         L0 = acc[0]
@@ -137,7 +141,7 @@ def judge_shape(data: bytes, addr: int, consumers: bool, pre, op) -> List[Tuple[
     return out
 
 
-def _judge_reduced(data, addr, lens, tag):
+def _judge_reduced(data, addr, lens, tag, first="EXC"):
     out = []
     r = {}
     for L in lens:
@@ -147,6 +151,11 @@ def _judge_reduced(data, addr, lens, tag):
             out.append((f"C01/info-raises/{type(exc).__name__}/{tag}", f"info({data[:L].hex()}) raised {exc}"))
             return out
     full = r[len(data)]
+    if first != "EXC" and full != first:
+        out.append((f"C01/answer-depends-on-earlier-requests/{tag}", f"get_instruction_info({data.hex()}) @ {addr:#x}: a new architecture object says "
+                    f"{first}, the shared one says {full} after shorter buffers"))
+    if full is None:
+        return out
     ln = full[0]
     if r[ln] != full:
         out.append((f"C01/trailing-bytes-change-result/{tag}", f"{data[:ln].hex()} -> {r[ln]} but {data.hex()} -> {full}"))
